@@ -288,7 +288,7 @@ def run(col):
     prof['max_dim'] = 4 if col.tier == 'quick' else (4 if col.shard % 4 else 8)
     mon = Local(col)
     core.run_property(col, lambda: benchmachine.make_machine(col, pp, prof, mon),
-                      budget(50, 800, col.tier), tag='bench', stateful_step_count=budget(25, 40, col.tier))
+                      budget(50, 800, col.tier), tag='bench', stateful_step_count=25 if col.tier == 'quick' else 40)
 
 
 def replay(col, case):
